@@ -71,6 +71,9 @@ func (e *Exec) callSiteAsserts(st *State, call *ast.CallExpr, name string, recv 
 		e.callAsserted[ca] = true
 		savedA, savedR := e.callArgs, e.callRecv
 		e.callArgs, e.callRecv = args, recv
+		savedX := e.callArgExprs
+		e.callArgExprs = call.Args
+		defer func() { e.callArgExprs = savedX }()
 		if ca.Capture {
 			// ghost variable: remember the value of the expression at this call
 			e.spec++
